@@ -866,9 +866,17 @@ class Flow(NLRI):
                 if isinstance(rule, IPrefix) and rule.afi != settings.afi:
                     raise ValueError(f'{rule.NAME} {rule} is not an {settings.afi.name()} prefix')
 
+        # RFC 8955 section 8: the route distinguisher is what makes a rule a flow-vpn one, and only the
+        # flow-vpn NLRI starts with it. `announce ipv4 flow ... rd 65000:1` kept SAFI 133 and packed the
+        # RD in front of the components, which the peer reads as component type 0: the route becomes a
+        # flow-vpn one, as the `flow { route { rd ...; } }` form of the configuration already does.
+        safi = settings.safi
+        if safi == SAFI.flow_ip and settings.rd is not None and settings.rd is not RouteDistinguisher.NORD:
+            safi = SAFI.flow_vpn
+
         instance = cls.make_flow(
             afi=settings.afi,
-            safi=settings.safi,
+            safi=safi,
         )
         # Note: settings.nexthop is now passed to Route, not stored in NLRI
 
